@@ -259,7 +259,10 @@ unsafe fn sim_open(path: &str, flags: i32) -> i32 {
     w.n_open += 1;
     w.counters.opens += 1;
     if let Some(&errno) = w.plan.open.get(&idx) {
-        w.fire(if flags & libc::O_ACCMODE == libc::O_RDONLY {
+        // EINTR is retried by std (cvt_r): transparent to a correct caller
+        w.fire(if errno == libc::EINTR {
+            "open_eintr"
+        } else if flags & libc::O_ACCMODE == libc::O_RDONLY {
             "open_read_err"
         } else {
             "open_write_err"
